@@ -292,6 +292,21 @@ class Ctx:
         return self.check(z3.Not(f)) == z3.unsat
 
 
+class DeferredRaiseGen:
+    """generator whose k-th element raises: yields the elements computed before, then raises"""
+
+    def __init__(self, items, exc):
+        self.items, self.exc, self.done = list(items), exc, False
+
+    def __pyvc_iter__(self, I):
+        if self.done:
+            return
+        self.done = True
+        for x in self.items:
+            yield x
+        raise PyRaise(self.exc)
+
+
 class Frame:
     def __init__(self, globs, defcls=None, parent=None, func=None):
         self.locals = {}
@@ -652,6 +667,12 @@ class Interp:
                 or isinstance(obj, (int, float)) and not isinstance(obj, enum.Enum):
             if isinstance(obj, enum.Enum):
                 return self.lift(getattr(obj, name))
+            # only names the python type really has (a str has no .node_id: AttributeError, as in CPython)
+            pytype = (list if isinstance(obj, PList) else dict if isinstance(obj, PDict) else set if isinstance(obj, PSet) else
+                      str if (isinstance(obj, (str, JsonText)) or kind_of(obj) == 'str') else tuple if isinstance(obj, tuple) else
+                      type(obj) if isinstance(obj, (int, float)) else None)
+            if pytype is not None and not hasattr(pytype, name) and not name.startswith('__pyvc'):
+                self.raise_(AttributeError, f"'{pytype.__name__}' object has no attribute '{name}'")
             return BuiltinMethod(obj, name)
         if isinstance(obj, Foreign):
             return Foreign(None)
@@ -792,6 +813,11 @@ class Interp:
         m = self.models.lookup(fn)
         if m is not None:
             return m(self, list(args), kwargs)
+        if isinstance(fn, types.FunctionType) and getattr(fn, '__wrapped__', None) is not None and \
+                fn.__code__.co_filename.endswith('contextlib.py') and inspect.isgeneratorfunction(fn.__wrapped__):
+            return self.models.GenContextManager(self, fn.__wrapped__, list(args), kwargs)
+        if type(fn).__name__ == '_lru_cache_wrapper' and hasattr(fn, '__wrapped__'):
+            return self.call_lru_cached(fn, list(args), kwargs)
         if isinstance(fn, types.FunctionType):
             mod = fn.__module__ or ''
             if mod == 'fim' or mod.startswith('fim.'):
@@ -811,6 +837,31 @@ class Interp:
         if ctx.shared.havoc_unmodelled and callable(fn):
             return self.any_op(f'{getattr(fn, "__module__", "") or ""}.{getattr(fn, "__name__", "fn")}()')
         raise Unsupported(f'call of {fn!r}')
+
+    def call_lru_cached(self, fn, args, kwargs):
+        """functools.lru_cache: the cache lives for the whole path (process); a call whose arguments are EQUAL (the arguments'
+        own __eq__, as a dict lookup would decide after the hash matched) to those of an earlier call returns the earlier
+        RESULT OBJECT.  Eviction (maxsize) is not modelled."""
+        self.ctx.trust('functools.lru_cache: hit iff the arguments equal those of an earlier call (their __eq__); no eviction')
+        cache = self.ctx.ghost.setdefault('lru_cache', {}).setdefault(id(fn), [])
+        key = list(args) + [kv for k in sorted(kwargs) for kv in (k, kwargs[k])]
+        for k0, res in cache:
+            if len(k0) != len(key):
+                continue
+            hit = True
+            for a, b in zip(k0, key):
+                if a is b:
+                    continue
+                if isinstance(a, (PList, PDict, PSet)) or isinstance(b, (PList, PDict, PSet)):
+                    self.raise_(TypeError, 'unhashable type')
+                if not self.ctx.branch(self.py_eq(a, b)):
+                    hit = False
+                    break
+            if hit:
+                return res
+        res = self.call(fn.__wrapped__, args, kwargs)
+        cache.append((key, res))
+        return res
 
     def instantiate(self, cls, args, kwargs):
         if issubclass(cls, BaseException):
@@ -1573,7 +1624,21 @@ class Interp:
         return PList(out)
 
     def ex_GeneratorExp(self, e, frame):
-        return self.ex_ListComp(e, frame)
+        """a generator expression is consumed lazily: an exception raised while computing its k-th element surfaces where the
+        consumer asks for that element (possibly inside a try block, after the consumer has processed the elements before it).
+        Elements are computed eagerly here (their expressions are assumed free of side effects on the consumer's state); a
+        failure is kept and re-raised at the right position."""
+        out = []
+        try:
+            self._comp(e.generators, frame, lambda fr: out.append(self.eval(e.elt, fr)))
+        except PyRaise as pr:
+            # python evaluates the outermost iterable eagerly: an error there is raised at once
+            try:
+                self.eval(e.generators[0].iter, frame)
+            except PyRaise:
+                raise pr
+            return DeferredRaiseGen(out, pr.exc)
+        return PList(out)
 
     def ex_SetComp(self, e, frame):
         out = []
